@@ -144,6 +144,66 @@ class DeleteAu(Automaton):
         return (sec, nres, nxt, inv, ndec, zero, cur, clr, fl)
 
 
+RELOCATIONS = ('uncompress', 'set_offset', 'uncompress_with_previous_offset')
+
+
+def resize_moves_next(facts):
+    """lemma: every instance of resize_rr ends by setting offset_next to offset_next + shift (so resize_rr(-(offset_next - offset))
+    leaves offset_next == offset without a further set_offset_next)"""
+    keys = facts.inst_keys('rr_iterator::TypedIterable::resize_rr')
+    if not keys:
+        return False
+    for key in keys:
+        f = facts.fns[key]
+        defs = F.single_defs(f)
+        ok = False
+        for bi, b in F.blocks(f):
+            t = b['term']
+            if t['k'] == 'call' and _is(t, 'set_offset_next') and len(t['args']) > 1:
+                rs = F.roots(f, defs, t['args'][1])
+                e = F.expr(f, defs, t['args'][1])
+                has_next = any(r[0] == 'call' and r[1].endswith('::offset_next') for r in rs)
+                has_shift = any(r == ('param', 2) for r in rs)
+                is_sum = 'Add' in repr(e) and 'Sub' not in repr(e) and 'Mul' not in repr(e)
+                if has_next and has_shift and is_sum and all(r[0] in ('call', 'param') for r in rs) and len(rs) == 2:
+                    ok = True
+        if not ok:
+            return False
+    return True
+
+
+def stale_cursor_reads(f, defs):
+    """cursor positions (offset() / offset_next()) that flow into the length handed to resize_rr although the cursor can still be
+    relocated (decompression moves it) between the read and the splice: [(at of the read, at of the relocation)]"""
+    out = []
+    reloc = [bi for bi, b in F.blocks(f) if b['term']['k'] == 'call' and any(_is(b['term'], n) for n in RELOCATIONS)]
+    if not reloc:
+        return out
+    where = {}
+    for bi, b in F.blocks(f):
+        if b['term']['k'] == 'call':
+            where[id(b['term'])] = bi
+    for bi, b in F.blocks(f):
+        t = b['term']
+        if t['k'] == 'call' and _is(t, 'resize_rr') and len(t['args']) > 1:
+            for r in F.roots(f, defs, t['args'][1]):
+                if r[0] == 'call' and (r[1].endswith('::offset') or r[1].endswith('::offset_next')):
+                    src = where.get(id(r[2]))
+                    if src is None:
+                        continue
+                    seen, todo = set(), [m for m in F.succ(f['blocks'][src]) if not f['blocks'][m]['cleanup']]
+                    while todo:
+                        n = todo.pop()
+                        if n in seen or n == bi:
+                            continue
+                        seen.add(n)
+                        todo += [m for m in F.succ(f['blocks'][n]) if not f['blocks'][m]['cleanup']]
+                    hit = [x for x in reloc if x in seen]
+                    if hit:
+                        out.append((r[2].get('at'), f['blocks'][hit[0]]['term'].get('at')))
+    return out
+
+
 def delete_protocol_rule(ctx, facts, cfg, rid):
     sect_disc = {v['name']: int(v['discr']) for v in facts.adts.get('constants::Section', {}).get('variants', [])}
     keys = facts.inst_keys('rr_iterator::TypedIterable::delete')
@@ -151,8 +211,14 @@ def delete_protocol_rule(ctx, facts, cfg, rid):
         ctx.violation(rid, '<floor>', 'delete instances', 'found %d instantiations of TypedIterable::delete, expected 2' % len(keys), kind='below-floor')
     au = DeleteAu(facts, sect_disc)
     flow = PathFlow(facts, au)
+    next_by_resize = resize_moves_next(facts)
     for key in keys:
         f = facts.fns[key]
+        stale = stale_cursor_reads(f, F.single_defs(f))
+        ctx.instance(rid, '%s: the record length handed to resize_rr is computed from cursor positions read after the last relocation of the cursor' % key, ok=not stale, site=f['at'])
+        for rd, rl in stale:
+            ctx.violation(rid, key, 'stale-cursor', 'delete in %s computes the length of the record from a cursor position read at %s, before the decompression at %s moves the cursor: the splice removes bytes of the neighbouring record'
+                          % (key.split('@')[-1], rd, rl), site=rd or f['at'], config=cfg)
         exits = flow.summary(key, DeleteAu.init)
         problems = {}
         oks = 0
@@ -164,7 +230,8 @@ def delete_protocol_rule(ctx, facts, cfg, rid):
             ps = set(fl)
             if nres != 1:
                 ps.add('resize_rr-called-%s-times' % nres)
-            if not nxt:
+            if not nxt and not (next_by_resize and not (set(fl) & {'resize-argument-not-record-length', 'resize-argument-not-negated'})):
+                # (resize_rr(-(offset_next - offset)) itself leaves offset_next at offset when it ends with offset_next += shift)
                 ps.add('set_offset_next-missing')
             if not inv:
                 ps.add('invalidate-missing')
